@@ -16,6 +16,7 @@ no collection of a filterable spec without filters on a host).
 import json
 import os
 import shutil
+import sys
 import tempfile
 
 from harness.common import VERIF, enc, run_driver
@@ -47,9 +48,30 @@ class derived_ds2(derived_ds1):
     pass
 
 
+class derived_parser(parser):
+    """a component type derived from `parser`: add_filter walks through it like through a plain parser"""
+    pass
+
+
+class derived_combiner(combiner):
+    pass
+
+
 DTYPES = [datasource, derived_ds1, derived_ds2]
+PTYPES = [parser, derived_parser]
+CTYPES = [combiner, derived_combiner]
+
+
+def own_is_ds(c):
+    """is the component declared with the datasource type or a type DERIVED from it - read off the delegate object,
+    not through plugins.is_datasource / dr.is_datasource (which are part of what is checked)"""
+    try:
+        return isinstance(dr.get_delegate(c), datasource)
+    except Exception:
+        return False
 FINDING_SPLIT = "host-content-resplit"
 FINDING_STREAM = "archive-stream-unfiltered"
+FINDING_LOADS = "loads-overwrites-stale-cache"
 # characters at which str.splitlines() breaks a line but grep (and the file) does not
 BREAKS = ["\r", "\x0b", "\x0c", "\x1c", "\x1d", "\x1e", "\x85", "\u2028", "\u2029"]
 
@@ -135,7 +157,7 @@ def gen_spec(rng):
     pars = []
     for _ in range(rng.randint(1, 3)):
         k = rng.choice([1, 1, 1, 2])
-        sp["parsers"].append({"deps": [rng.choice(ds) for _ in range(k)]})
+        sp["parsers"].append({"deps": [rng.choice(ds) for _ in range(k)], "ptype": rng.choice([0, 0, 1])})
         pars.append(n)
         n += 1
     combs = []
@@ -144,7 +166,7 @@ def gen_spec(rng):
         req = [rng.choice(pool)]
         anyof = [[rng.choice(pool), rng.choice(pool)]] if rng.random() < 0.4 else []
         opt = [rng.choice(pool)] if rng.random() < 0.3 else []
-        sp["combiners"].append({"req": req, "any": anyof, "opt": opt})
+        sp["combiners"].append({"req": req, "any": anyof, "opt": opt, "ctype": rng.choice([0, 0, 1])})
         combs.append(n)
         n += 1
     sp["n"] = n + 1     # + the plain function
@@ -152,12 +174,13 @@ def gen_spec(rng):
 
 
 def world_line_of(comps, enabled):
-    """the `world` protocol line for a list of real components, read off through dr / plugins"""
+    """the `world` protocol line for a list of real components, read off through dr; whether a component is a
+    datasource is read off its delegate's TYPE (own_is_ds), not asked of plugins.is_datasource"""
     index = dict((id(c), i) for i, c in enumerate(comps))
     nodes = []
     n = len(comps)
     for c in comps:
-        is_ds = bool(plugins.is_datasource(c))
+        is_ds = own_is_ds(c)
         dg = dr.get_delegate(c)
         deps = []
         for d in dr.get_dependencies(c):
@@ -165,7 +188,7 @@ def world_line_of(comps, enabled):
                 deps.append(index[id(d)])
             elif not is_ds:
                 raise RuntimeError("non-datasource component depends on something outside the world")
-        dpts = [index[id(d)] for d in dr.get_dependents(c)]
+        dpts = [index[id(d)] for d in dr.get_dependents(c) if id(d) in index]
         flags = [is_ds, bool(getattr(dg, "filterable", False)), bool(getattr(dg, "raw", False)),
                  hasattr(c, "filterable") and c.filterable is False, bool(dr.is_registry_point(c)),
                  bool(getattr(c, "filterable", False))]
@@ -201,7 +224,7 @@ def gen_spec_first_of(rng):
         n += 1
     sp["nds"] = n
     for p in range(k):
-        sp["parsers"].append({"deps": [p]})
+        sp["parsers"].append({"deps": [p], "ptype": rng.choice([0, 1])})
         n += 1
     sp["n"] = n + 1
     return sp
@@ -219,7 +242,7 @@ def gen_spec_chain(rng):
     n = k + 1                      # points, then A's file implementation (id k)
     roles = {"points": list(range(k)), "impls": [k], "parsers": [], "computed": []}
     for p in range(k):
-        sp["chain"].append(["parser", p])
+        sp["chain"].append(["parser", p, rng.choice([0, 0, 1])])
         roles["parsers"].append(n)
         n += 1
         if p + 1 < k:
@@ -249,6 +272,8 @@ class World(object):
         self.attr_false = []       # my own bookkeeping of `c.filterable is False`
         self.deleg_filterable = []
         self.up = []               # up[c] = components I declared as depending on c
+        self.bound = set()         # registry points and the objects bound to them: they carry .filterable / .raw
+        self.raw_attr = {}
         self.down = []             # down[c] = components c was declared to depend on
         tag = fresh("w")
 
@@ -272,8 +297,10 @@ class World(object):
             pts["p%d" % i] = RegistryPoint(filterable=p["filterable"], raw=p["raw"])
         S = type("S" + tag, (SpecSet,), dict(pts))
         self.S = S
+        self.named = [S]
         for i, p in enumerate(sp["points"]):
-            reg(pts["p%d" % i], True, p["filterable"] is False, bool(p["filterable"]))
+            self.bound.add(reg(pts["p%d" % i], True, p["filterable"] is False, bool(p["filterable"])))
+            self.raw_attr[i] = bool(p["raw"])
         for i, a in enumerate(sp["anon"]):
             kw = {} if a["filterable"] is None else {"filterable": a["filterable"]}
             reg(simple_file("/nonexistent/%s/a%d" % (tag, i), **kw), True, False, bool(a["filterable"]))
@@ -297,7 +324,7 @@ class World(object):
                     obj = self.comps[how[1]]
                 d["p%d" % p] = obj
                 order.append((p, how, obj))
-            type("I%d%s" % (j, tag), (S,), d)
+            self.named.append(type("I%d%s" % (j, tag), (S,), d))
             for p, how, obj in order:
                 pf = sp["points"][p]["filterable"]
                 if how[0] == "anon":
@@ -310,6 +337,8 @@ class World(object):
                         for a in how[1]:
                             edge(a, c)
                 edge(c, p)
+                self.bound.add(c)
+                self.raw_attr[c] = bool(sp["points"][p]["raw"])
         for p, c in sp["extra"]:
             dr.add_dependency(self.comps[p], self.comps[c])
             edge(c, p)
@@ -324,7 +353,7 @@ class World(object):
             edge(dv["dep"], c)
         for i, pa in enumerate(sp["parsers"]):
             cls = type("P%d%s" % (i, tag), (Parser,), {"parse_content": lambda self, content: None})
-            parser(*[self.comps[x] for x in pa["deps"]])(cls)
+            PTYPES[pa.get("ptype", 0)](*[self.comps[x] for x in pa["deps"]])(cls)
             c = reg(cls, False, False, False)
             for x in pa["deps"]:
                 edge(x, c)
@@ -333,7 +362,7 @@ class World(object):
                 return None
             g.__name__ = "c%d%s" % (i, tag)
             args = [self.comps[x] for x in cb["req"]] + [[self.comps[x] for x in grp] for grp in cb["any"]]
-            combiner(*args, optional=[self.comps[x] for x in cb["opt"]])(g)
+            CTYPES[cb.get("ctype", 0)](*args, optional=[self.comps[x] for x in cb["opt"]])(g)
             c = reg(g, False, False, False)
             for x in cb["req"] + [y for grp in cb["any"] for y in grp] + cb["opt"]:
                 edge(x, c)
@@ -342,7 +371,7 @@ class World(object):
         for i, st in enumerate(sp.get("chain", [])):
             if st[0] == "parser":
                 cls = type("CP%d%s" % (i, tag), (Parser,), {"parse_content": lambda self, content: None})
-                parser(self.comps[st[1]])(cls)
+                PTYPES[st[2] if len(st) > 2 else 0](self.comps[st[1]])(cls)
                 edge(st[1], reg(cls, False, False, False))
             elif st[0] == "dsfrom":
                 def fn(broker):
@@ -352,21 +381,55 @@ class World(object):
                 edge(st[1], reg(fn, True, False, False))
             else:       # ["bind", point, ds]: the computed datasource becomes the implementation of the point
                 _, p_, d_ = st
-                type("CI%d%s" % (i, tag), (S,), {"p%d" % p_: self.comps[d_]})
+                self.named.append(type("CI%d%s" % (i, tag), (S,), {"p%d" % p_: self.comps[d_]}))
                 pf = sp["points"][p_]["filterable"]
                 self.attr_false[d_] = pf is False
                 self.deleg_filterable[d_] = bool(pf)
                 edge(d_, p_)
+                self.bound.add(d_)
+                self.raw_attr[d_] = bool(sp["points"][p_]["raw"])
 
         def plain():
             return None
         reg(plain, False, False, False)
         self.index = dict((id(c), i) for i, c in enumerate(self.comps))
         assert len(self.comps) == sp["n"], (len(self.comps), sp["n"])
+        if sp.get("named"):
+            # make the spec classes importable by name: filters.loads() finds components with dr.get_component(name)
+            for cls in self.named:
+                setattr(sys.modules[cls.__module__], cls.__name__, cls)
+
+    def unname(self):
+        for cls in self.named:
+            if getattr(sys.modules[cls.__module__], cls.__name__, None) is cls:
+                delattr(sys.modules[cls.__module__], cls.__name__)
 
     # ---- what the MODEL gets: read off the real objects through dr / plugins
     def world_line(self):
         return world_line_of(self.comps, self.sp["enabled"])
+
+    def graph_defects(self):
+        """the real registries against the generator's own record: every declared datasource (plain or of a DERIVED
+        type) is one for plugins.is_datasource and dr.is_datasource, every declared edge is a real dependency"""
+        out = []
+        for i, c in enumerate(self.comps):
+            for fn_name, fn in (("plugins.is_datasource", plugins.is_datasource), ("dr.is_datasource", dr.is_datasource)):
+                try:
+                    got = bool(fn(c))
+                except Exception as e:
+                    got = "raised %s" % type(e).__name__
+                if got != self.is_ds[i]:
+                    out.append("%s(component %d, declared with type %s) = %r, declared %s" % (
+                        fn_name, i, getattr(dr.get_component_type(c), "__name__", None), got,
+                        "a datasource" if self.is_ds[i] else "not a datasource"))
+            for par in self.up[i]:
+                if not any(d is self.comps[par] for d in dr.get_dependents(c)):
+                    out.append("component %d was declared as a dependency of %d (implementation of the registry point / input of "
+                               "the parser), dr.get_dependents does not have the edge" % (i, par))
+        return out
+
+    def attr_true(self, c):
+        return c in self.bound and self.deleg_filterable[c]
 
     # ---- what the ORACLE uses: only the generator's own record
     def first_ds_below(self, c, seen=None):
@@ -445,8 +508,14 @@ def gen_ops(rng, sp, quick):
             else:
                 pats = {"t": "list", "v": ["foo", ""]}
             m = rng.random()
-            mx = "default" if m < 0.4 else rng.randint(1, 5) if m < 0.92 else rng.choice([0, -1, "none", "true", "float"])
-            ops.append(["add", comp, pats, mx])
+            mx = "default" if m < 0.4 else rng.randint(1, 5) if m < 0.9 else rng.choice([0, -1, "none", "true", "float", 10 ** 12, 10000, 9999, 10001])
+            e = rng.random()
+            if e < 0.12:
+                ops.append(["find", comp if rng.random() < 0.5 else rng.randrange(sp.get("nds", n)), pats])
+            elif e < 0.3:
+                ops.append(["add", comp, pats, mx, "alias"])
+            else:
+                ops.append(["add", comp, pats, mx])
         elif r < 0.85:
             ops.append(["get", rng.randrange(n) if rng.random() < 0.8 else rng.randrange(npts)])
         else:
@@ -459,6 +528,36 @@ def gen_ops(rng, sp, quick):
         for c in ids[:6]:
             ops.append(["get", c])
     return ops
+
+
+def gen_loads_history(rng, quick):
+    """a general graph whose spec classes are importable by name + a history in which filters.loads() registers
+    filters for registry points / bound implementations between look-ups and add_filter calls"""
+    while True:
+        sp = gen_spec(rng)
+        if not sp.get("scenario"):
+            break
+    sp["named"] = 1
+    npts = len(sp["points"])
+    named = list(range(npts)) + [int(p) for p in []]
+    ops = []
+    for _ in range(rng.randint(4, 9)):
+        r = rng.random()
+        if r < 0.3:
+            ents = []
+            for c in rng.sample(named, rng.randint(1, len(named))):
+                ents.append([c, [[k, rng.choice([1, 2, 3, 10000])] for k in rng.sample(PATTERN_POOL, rng.randint(1, 2))]])
+            ops.append(["loads", ents])
+        elif r < 0.55:
+            ops.append(["add", rng.randrange(sp["n"]), {"t": "str", "v": rng.choice(PATTERN_POOL)}, rng.choice(["default", 1, 2])])
+        else:
+            ops.append(["get", rng.randrange(sp.get("nds", sp["n"]))])
+    ids = list(range(sp.get("nds", sp["n"])))
+    rng.shuffle(ids)
+    if rng.random() < (0.15 if quick else 0.02):
+        # the filters file: dumps()/dump(stream) -> loads()/load(stream) must give the same registry back
+        ops.insert(rng.randint(1, len(ops)), ["roundtrip", rng.choice(["text", "stream"])])
+    return sp, ops + [["get", c] for c in ids[:5]]
 
 
 def show_allow(d):
@@ -501,10 +600,13 @@ class HistoryRun(object):
         self.tags = []
         saved = filters.ENABLED
         filters.ENABLED = sp["enabled"]
+        self.w = None
         try:
             self._run(scratch)
         finally:
             filters.ENABLED = saved
+            if self.w is not None:
+                self.w.unname()
 
     def _run(self, scratch):
         w = World(self.sp)
@@ -514,15 +616,92 @@ class HistoryRun(object):
         self.impl.append("ok ranked=1")
         log = {}      # oracle: ds -> {pattern: max over registrations}
         ds_ids = [i for i in range(len(w.comps)) if w.is_ds[i]]
+        for d in w.graph_defects():
+            self.fail.append((d, 0))
         for step, op in enumerate(self.ops):
-            if op[0] == "add":
-                _, c, pats, mx = op
+            if op[0] == "find":
+                # spec_factory.find(spec, pattern): the third registration entry point (through filters._add_filter)
+                _, c, pats = op
                 comp = w.comps[c]
                 try:
-                    if mx == "default":
-                        add_filter(comp, py_pats(pats))
+                    spec_factory.find(comp, py_pats(pats))
+                    res = "ok"
+                except ValueError:
+                    res = "err:findRaw"
+                except Exception as e:
+                    res = add_err(e)
+                self.tags.append("find:" + res)
+                flag = "T" if pats["t"] == "tuple" else "L"
+                pl = [] if flag == "T" else ([pats["v"]] if pats["t"] == "str" else pats["v"])
+                self.lines.append("\t".join(["find", str(c), flag] + [enc(p) for p in pl]))
+                self.impl.append(res)
+                if res == "ok" and w.is_ds[c] and w.attr_true(c):
+                    for p in pl:
+                        log.setdefault(c, {})
+                        log[c][p] = max(log[c].get(p, filters.MAX_MATCH), filters.MAX_MATCH)
+                for d in ds_ids:
+                    self.lines.append("reg\t%d" % d)
+                    self.impl.append(show_allow(filters.FILTERS.get(w.comps[d], {})))
+            elif op[0] == "roundtrip":
+                import io
+                import yaml
+                before = dict((d, dict(filters.FILTERS.get(w.comps[d], {}))) for d in ds_ids)
+                try:
+                    if op[1] == "stream":
+                        buf = io.StringIO()
+                        filters.dump(buf)
+                        text = buf.getvalue()
                     else:
-                        add_filter(comp, py_pats(pats), py_max(mx))
+                        text = filters.dumps()
+                    doc = yaml.safe_load(text)
+                    for d in sorted(w.bound):
+                        name = dr.get_name(w.comps[d])
+                        if before[d] and doc.get(name) != before[d]:
+                            self.fail.append(("filters.dumps(): entry %r is %r, FILTERS has %r" % (name, doc.get(name), before[d]), step))
+                    if op[1] == "stream":
+                        filters.load(io.StringIO(text))
+                    else:
+                        filters.loads(text)
+                    res = "ok"
+                except Exception as e:
+                    res = "raised:" + type(e).__name__
+                    self.fail.append(("dump / load round trip raised %s: %s" % (type(e).__name__, e), step))
+                self.tags.append("roundtrip:" + res)
+                after = dict((d, dict(filters.FILTERS.get(w.comps[d], {}))) for d in ds_ids)
+                if after != before:
+                    dd = [d for d in ds_ids if after[d] != before[d]][0]
+                    self.fail.append(("dump -> load round trip changed the registry: FILTERS of component %d was %r, is %r" % (dd, before[dd], after[dd]), step))
+            elif op[0] == "loads":
+                # filters.loads(text): the registration entry point of the filters file (collect.py -> filters.load())
+                doc, fields = {}, []
+                for c, allow in op[1]:
+                    doc[dr.get_name(w.comps[c])] = dict((k, m) for k, m in allow)
+                    fields += [str(c), ";".join("%s=%d" % (enc(k), m) for k, m in allow) or "-"]
+                try:
+                    filters.loads(json.dumps(doc))
+                    res = "ok"
+                except Exception as e:
+                    res = "err:other:" + type(e).__name__
+                self.tags.append("loads:" + res)
+                self.lines.append("\t".join(["loads"] + fields))
+                self.impl.append(res)
+                if res == "ok":
+                    for c, allow in op[1]:
+                        for k, m in allow:
+                            log.setdefault(c, {})
+                            log[c][k] = max(log[c].get(k, m), m)
+                for d in ds_ids:
+                    self.lines.append("reg\t%d" % d)
+                    self.impl.append(show_allow(filters.FILTERS.get(w.comps[d], {})))
+            elif op[0] == "add":
+                c, pats, mx = op[1:4]
+                comp = w.comps[c]
+                entry = filters._add_filter if len(op) > 4 and op[4] == "alias" else add_filter
+                try:
+                    if mx == "default":
+                        entry(comp, py_pats(pats))
+                    else:
+                        entry(comp, py_pats(pats), py_max(mx))
                     res = "ok"
                 except Exception as e:
                     res = add_err(e)
@@ -546,8 +725,17 @@ class HistoryRun(object):
                 c = op[1]
                 comp = w.comps[c]
                 hit = comp in getattr(filters, "_CACHE", {})      # bookkeeping only, not compared
-                got = get_filters(comp, True)
-                got_set = get_filters(comp)
+                try:
+                    got = get_filters(comp, True)
+                    got_set = get_filters(comp)
+                    if not isinstance(got, dict) or not isinstance(got_set, (set, frozenset)):
+                        raise TypeError("get_filters returned %s / %s" % (type(got).__name__, type(got_set).__name__))
+                except Exception as e:
+                    self.fail.append(("get_filters raised / returned a wrong type: %s: %s" % (type(e).__name__, e), step))
+                    self.tags.append("get:raised")
+                    self.lines.append("get\t%d" % c)
+                    self.impl.append("raised:" + type(e).__name__)
+                    continue
                 self.tags.append("get:" + ("hit" if hit else "miss") + (":nonempty" if got else ":empty"))
                 self.lines.append("get\t%d" % c)
                 self.impl.append(show_allow(got))
@@ -564,6 +752,9 @@ class HistoryRun(object):
                     fl, fs = p._filterable, dict(p._filters)
                 except NoFilterException:
                     res, fl, fs = "nofilter", None, None
+                except Exception as e:
+                    res, fl, fs = "raised:" + type(e).__name__, None, None
+                    self.fail.append(("building a TextFileProvider for the datasource raised %s: %s" % (type(e).__name__, e), step))
                 self.tags.append("build:" + res.split("\t")[0] + (":host" if host else ":archive"))
                 self.lines.append("build\t%d\t%d" % (1 if host else 0, c))
                 self.impl.append(res)
@@ -573,6 +764,8 @@ class HistoryRun(object):
                     res2 = "ok\t%d\t%s" % (1 if cp._filterable else 0, show_allow(cp._filters))
                 except NoFilterException:
                     res2 = "nofilter"
+                except Exception as e:
+                    res2 = "raised:" + type(e).__name__
                 self.lines.append("build\t%d\t%d" % (1 if host else 0, c))
                 self.impl.append(res2)
                 if res2 != res:
@@ -601,6 +794,9 @@ class HistoryRun(object):
             self.fail.append(("get_filters returned %r, the registration log gives %r" % (sorted(got), sorted(want)), step))
             return
         for k, b in got.items():
+            if type(b) is not int or b <= 0:
+                self.fail.append(("budget %r of filter %r in force is not a positive integer (add_filter accepts positive int budgets only)" % (b, k), step))
+                return
             if b not in want[k]:
                 self.fail.append(("budget %r of filter %r was never registered (candidates %r)" % (b, k, sorted(want[k])), step))
 
@@ -646,12 +842,78 @@ def run_histories(chk, cases, scratch, stream="registry-history"):
             if first is None:
                 first = {"case": {"kind": "history", "spec": sp, "ops": ops}, "diff": bad}
         for desc, step in h.fail:
-            chk.failure("history step %d (%s): %s" % (step, json.dumps(ops[step]), desc),
-                        {"kind": "history", "spec": sp, "ops": ops})
+            fid = FINDING_LOADS if any(o[0] == "loads" for o in ops[:step]) and ops[step][0] != "roundtrip" else None
+            chk.failure("history step %d (%s): %s" % (step, json.dumps(ops[step]) if ops else "-", desc),
+                        {"kind": "history", "spec": sp, "ops": ops}, finding=fid)
     chk.stream(stream, len(cases), mism)
     if mism:
         chk.tie_broken("correspondence:" + stream, "%d of %d histories differ" % (mism, len(cases)), first)
     return runs
+
+
+# =========================================================================== (a'') component types
+
+class derived_ds3(derived_ds2):
+    pass
+
+
+def run_type_cases(chk):
+    """plugins.is_type / is_datasource / is_parser / is_combiner and dr.is_datasource on fresh components declared with plain
+    component types and with types DERIVED from them (up to three levels), against the model's typeIs over the class table
+    read off the delegates' types; oracle: a component is a datasource iff its declared type derives from `datasource`"""
+    tag = fresh("t")
+    base_ds = simple_file("/nonexistent/%s" % tag)
+    types = [dr.ComponentType, plugins.PluginType, datasource, parser, combiner, plugins.component,
+             derived_ds1, derived_ds2, derived_ds3, derived_parser, derived_combiner]
+    types.sort(key=lambda t: len(t.__mro__))
+    parents = []
+    for t in types:
+        par = [types.index(b) for b in t.__mro__[1:] if b in types]
+        parents.append(str(par[0]) if par else "n")
+    table = ",".join(parents)
+    comps = []
+    for T in types:
+        if T in (dr.ComponentType, plugins.PluginType):
+            continue
+        if issubclass(T, parser):
+            obj = type("TP%s%d" % (tag, len(comps)), (Parser,), {"parse_content": lambda self, content: None})
+            T(base_ds)(obj)
+        else:
+            def obj(*args):
+                return None
+            obj.__name__ = "tf%s%d" % (tag, len(comps))
+            T(base_ds)(obj)
+        comps.append((T, obj))
+    named = {"is_datasource": (plugins.is_datasource, datasource), "is_parser": (plugins.is_parser, parser),
+             "is_combiner": (plugins.is_combiner, combiner), "dr.is_datasource": (dr.is_datasource, datasource)}
+    cases, impl, lines = [], [], []
+    for T, obj in comps:
+        for b, B in enumerate(types):
+            probes = [("is_type", lambda o, B=B: plugins.is_type(o, B))]
+            probes += [(n, f) for n, (f, base) in named.items() if base is B]
+            for n, f in probes:
+                try:
+                    got = "1" if f(obj) else "0"
+                except Exception as e:
+                    got = "raised:" + type(e).__name__
+                case = {"kind": "types", "declared": T.__name__, "base": B.__name__, "probe": n}
+                cases.append(case)
+                impl.append(got)
+                lines.append("isa\t%s\t%d\t%d" % (table, types.index(T), b))
+                chk.case(("types", T.__name__, B.__name__, n), T is not B)
+                if got != ("1" if issubclass(T, B) else "0"):
+                    chk.failure("%s(component declared with type %s [bases %s], %s) = %s" % (
+                        n, T.__name__, [x.__name__ for x in T.__mro__[1:-1]], B.__name__, got), case)
+    for nothing in (None, (lambda: None), "name", Parser):
+        for n, (f, base) in named.items():
+            try:
+                got = bool(f(nothing))
+            except Exception as e:
+                got = "raised:" + type(e).__name__
+            if got is not False:
+                chk.failure("%s(%r) = %r for something that is not a component" % (n, nothing, got), {"kind": "types-nothing", "probe": n})
+    out = run_driver("C07", lines)
+    chk.compare("component-types", cases, impl, out)
 
 
 # =========================================================================== (b) content
@@ -1515,7 +1777,7 @@ def run_hydrate_case(rig, c):
 
 # =========================================================================== (f) nested command datasources on a host
 
-NEST_SHAPES = ["direct", "first_cf", "first_fc", "nested", "head_fexec", "first_cwa"]
+NEST_SHAPES = ["direct", "first_cf", "first_fc", "nested", "head_fexec", "first_cwa", "derived_cmd", "derived_wrap"]
 
 
 def gen_nested_case(rng):
@@ -1526,7 +1788,7 @@ def gen_nested_case(rng):
     return {"kind": "nested", "shape": rng.choice(NEST_SHAPES), "filterable": rng.random() < 0.85,
             "where": rng.choice(["none", "none", "spec", "impl", "parser"]),
             "keys": [[rng.choice(toks), rng.choice([1, 3, 10000])] for _ in range(rng.choice([1, 2]))],
-            "data": [lines() for _ in range(3)], "file_present": rng.random() < 0.6}
+            "data": [lines() for _ in range(3)], "file_present": rng.random() < 0.6, "dtype": rng.choice([1, 2])}
 
 
 def run_nested_case(rig, c):
@@ -1587,6 +1849,20 @@ def run_nested_case(rig, c):
         up[reg(c0, "cmd", [c["data"][0]])].append(I_)
         up[reg(f1, "file", [c["data"][1]])].append(I_)
         up[reg(c2, "cmd", [c["data"][2]])].append(B)
+    elif shape in ("derived_cmd", "derived_wrap"):
+        # the implementation is a FUNCTION declared with a component type derived from `datasource` (one or two
+        # levels, like insights' host-only datasource types) that builds the command provider itself
+        def dfn(broker):
+            return CommandOutputProvider("%s %s" % (script, dfile[0]), broker[HostContext], ds=dfn, cleaner=broker.get("cleaner"))
+        dfn.__name__ = "dfn" + tag
+        DTYPES[c.get("dtype", 1)](HostContext)(dfn)
+        if shape == "derived_cmd":
+            bound = dfn
+            B = reg(bound, "cmd", [c["data"][0]])
+        else:
+            bound = first_of([dfn])
+            B = reg(bound, "wrap")
+            up[reg(dfn, "cmd", [c["data"][0]])].append(B)
     elif shape == "head_fexec":
         def names(broker):
             return [dfile[0], dfile[1]]
@@ -1612,7 +1888,7 @@ def run_nested_case(rig, c):
     type("I" + tag, (S,), {"p": bound})
     up[B].append(P)
     pcls = type("NP" + tag, (Parser,), {"parse_content": lambda self, content: None})
-    parser(S.p)(pcls)
+    PTYPES[c.get("dtype", 0) % 2](S.p)(pcls)
     PA = reg(pcls, "parser")
     lines = [world_line_of(comps, True)]
     impl = ["ok ranked=1"]
@@ -1880,6 +2156,22 @@ def run_loads_case(rig, c):
             fails.append("%s: child failed: %s" % (mode, o["error"][-300:]))
         elif o != ref:
             diff = [k + "/" + kk for k in ref for kk in ref[k] if o.get(k, {}).get(kk) != ref[k][kk]]
+            if mode.startswith("dumps->") and diff and all(d.startswith("content/") for d in diff):
+                # dumps() writes every filter dict SORTED: the same filters and budgets are in force, but in another key
+                # order, and the order decides which filter a line is charged to once budgets run out.  The property does
+                # not fix that order: judge the content of this mode by the property itself, not by equality
+                bads = []
+                for d in diff:
+                    attr = d.split("/")[1]
+                    allow = [(k, v) for k, v in o["get"]["Impl." + attr]]
+                    bad = content_oracle("archive-load(%s) after dumps->loads" % attr, c[attr], allow, o["content"][attr]) if allow else \
+                        (None if o["content"][attr] == c[attr] else "content changed without filters")
+                    if bad:
+                        bads.append(bad)
+                if not bads:
+                    continue
+                fails.extend(bads)
+                continue
             fails.append("%s: filters loaded from a file are not in force as if registered with add_filter after import; differs at %s: "
                          "%r vs %r" % (mode, diff[:3], [o.get(d.split("/")[0], {}).get(d.split("/")[1]) for d in diff[:2]],
                                        [ref[d.split("/")[0]][d.split("/")[1]] for d in diff[:2]]))
@@ -1922,6 +2214,14 @@ def run(chk):
                 "datasource -> spec C], filters on B/C and their parsers, on A sometimes or never, look-ups and host/archive provider "
                 "construction of A, its implementation and the computed datasources)); non-trivial = some look-up returned a non-empty set or was "
                 "answered from the cache after a registration; "
+                "12% of the registrations go through spec_factory.find(spec, pattern), 18% through the alias filters._add_filter, budgets also "
+                "9999/10000/10001/10**12; parsers and combiners are declared with types DERIVED from parser / combiner in a third of the cases; "
+                "whether a component is a datasource is read off its delegate's type (not asked of plugins.is_datasource), and before every "
+                "history plugins.is_datasource, dr.is_datasource and dr.get_dependents are compared with the generator's own record of the graph; "
+                "(a') 60 histories over graphs whose spec classes are importable by name, with filters.loads() as a registration between "
+                "look-ups and add_filter calls (model loadsReg; failures after a loads are instances of the listed finding loads-overwrites-stale-cache); "
+                "get_filters(None / 0 / '') ; component-types: plugins.is_type / is_datasource / is_parser / is_combiner / dr.is_datasource "
+                "on fresh components of 9 plain and derived component types (up to three levels) against every type of the class table; "
                 "(c) load histories: 1-3 filters with max_match 1-3 on one spec, then 5-10 steps of loading generated files of the "
                 "same datasource through TextFileProvider under HostArchiveContext (simple_file and glob_file / multi-output), "
                 "look-ups, further registrations, clean_content / apply_filters / filter_content on the shared dict; "
@@ -1932,7 +2232,8 @@ def run(chk):
                 "construction compared with the reference; a fraction of implementations, derived and computed datasources in the registry "
                 "histories are declared with a component type DERIVED from datasource (one and two levels); "
                 "(f) nested-host: a registry point (85% filterable) implemented by a direct simple_command, first_of([command, file]) in "
-                "both orders, nested first_of, head(foreach_execute) and first_of([command_with_args]); no filters / filters on the spec / "
+                "both orders, nested first_of, head(foreach_execute), first_of([command_with_args]), a FUNCTION declared with a one- or two-level "
+                "derived datasource type that builds the command provider itself (bound directly or below first_of); parser of a derived parser type; no filters / filters on the spec / "
                 "the bound implementation / a parser; evaluated by dr.run under HostContext; the commands leave a marker file when they "
                 "run; every nested provider's (_filterable, _filters) or NoFilterException compared with the model's construct, plus "
                 "ContainerCommandProvider / ContainerFileProvider on the deepest command datasource; non-trivial = nested shape; "
@@ -2045,6 +2346,8 @@ def _run(chk, rng, quick, n_hist, n_content, n_direct, n_bad, n_load, n_branch, 
         for mode in obs:
             chk.count("loads-mode:" + mode)
         agree = sum(1 for mode, o in obs.items() if mode != "add_filter" and o == obs["add_filter"])
+        if not fails:
+            agree = len(obs) - 1      # a dumps->loads content that differs only by the key order of the dump is no mismatch
         chk.stream("loads-vs-add_filter", len(obs) - 1, len(obs) - 1 - agree)
         for f in fails:
             chk.failure(f, c)
@@ -2090,6 +2393,26 @@ def _run(chk, rng, quick, n_hist, n_content, n_direct, n_bad, n_load, n_branch, 
         if not sp["enabled"]:
             chk.count("world:disabled")
     chk.sample({"history": hist_cases[len(corpus)][1][:4], "graph": hist_cases[len(corpus)][0]})
+
+    # ---- (a') histories with filters.loads() as a registration entry point (spec classes importable by name)
+    lh_cases = [gen_loads_history(rng, quick) for _ in range(60 if quick else 1500)]
+    lruns_ = run_histories(chk, lh_cases, scratch, stream="registry-loads-history")
+    for (sp, ops), h in zip(lh_cases, lruns_):
+        chk.case(("loads-hist", json.dumps([sp, ops], sort_keys=True)), any(t.endswith(":nonempty") for t in h.tags))
+        for t in h.tags:
+            chk.count("lh-" + t)
+
+    run_type_cases(chk)
+
+    # ---- get_filters of nothing (None / a component whose truth value is False): empty, of the asked type
+    for nothing in (None, 0, ""):
+        try:
+            got = (get_filters(nothing), get_filters(nothing, True))
+        except Exception as e:
+            got = "raised %s" % type(e).__name__
+        chk.case(("get-nothing", repr(nothing)), True)
+        if got != (set(), {}):
+            chk.failure("get_filters(%r) = %r, expected (set(), {})" % (nothing, got), {"kind": "get-nothing", "value": repr(nothing)})
 
     # ---- (c) load histories: the same datasource loaded again and again in one process
     for _ in range(n_load):
@@ -2218,6 +2541,32 @@ def replay(data):
                 bad = True
         finally:
             shutil.rmtree(scratch, ignore_errors=True)
+    elif c["kind"] in ("types", "types-nothing", "get-nothing"):
+        class _Chk(object):
+            """collects what run_type_cases / the get-nothing probe report, nothing else"""
+            def __init__(self):
+                self.fails = []
+            def case(self, *a, **k):
+                pass
+            def compare(self, *a, **k):
+                pass
+            def failure(self, desc, case, finding=None):
+                self.fails.append((desc, case))
+        if c["kind"] == "get-nothing":
+            for nothing in (None, 0, ""):
+                try:
+                    got = (get_filters(nothing), get_filters(nothing, True))
+                except Exception as e:
+                    got = "raised %s" % type(e).__name__
+                print("  get_filters(%r) -> %r" % (nothing, got))
+                bad = bad or got != (set(), {})
+        else:
+            k = _Chk()
+            run_type_cases(k)
+            for desc, case in k.fails:
+                if case == c or len(k.fails) < 6:
+                    print("ORACLE:", desc)
+            bad = bool(k.fails)
     elif c["kind"] == "loads":
         rig = ContentRig()
         try:
